@@ -21,7 +21,7 @@ ModelObsOK(M, E2, P2) ==
     LET m == M.m IN
     /\ M.env = E2[m]
     /\ M.len = Len(E2[m])
-    /\ M.all = E2[m]                                   \* get_agents() without filter
+    /\ (M.hasall => M.all = E2[m])                     \* get_agents() without filter (not asked after every call)
     /\ Range(M.by_id) = {<<IdOf(a), a>> : a \in Range(E2[m])}
     /\ \A k \in 1..Len(M.listing) :
           LET g == M.listing[k] IN
@@ -47,9 +47,9 @@ TrNewModel == /\ Ev.op = "new_model" /\ Ev.out = "ok"
 TrNewAgent == /\ Ev.op = "new_agent" /\ Ev.out = "ok"
               /\ NewAgent(Ev.a, Ev.m, Ev.tag)
 TrJoin     == /\ Ev.op = "join"
-              /\ \/ Ev.out = "ok" /\ \E v \in Both : Join(Ev.a, Ev.p, v)
-                 \/ Ev.out = "DuplicateAgentError" /\ JoinRejectedDup(Ev.a)
-                 \/ Ev.out = "Exception" /\ JoinRejectedOOB(Ev.a, Ev.p)
+              /\ \/ Ev.out = "ok" /\ \E v \in Both : Join(Ev.a, Ev.m, Ev.p, v)
+                 \/ Ev.out = "DuplicateAgentError" /\ JoinRejectedDup(Ev.a, Ev.m)
+                 \/ Ev.out = "Exception" /\ JoinRejectedOOB(Ev.a, Ev.m, Ev.p)
 TrLeave    == /\ Ev.op = "leave"
               /\ \/ Ev.out = "ok" /\ \E v \in Both : Leave(Ev.m, Ev.id, v) /\ ~(v = "mech" /\ LeaveIsF2(Ev.m, Ev.id))
                  \/ Ev.out = "KeyError" /\ IdTaken(Ev.m, Ev.id) /\ LeaveIsF2(Ev.m, Ev.id) /\ Leave(Ev.m, Ev.id, "mech")
@@ -89,11 +89,16 @@ TrShuffle  == /\ Ev.op = "shuffle" /\ Ev.out = "ok" /\ UNCHANGED vars
               /\ LET S == MatchSet(Ev.m, Range(Ev.tpl), Ev.hastag, Ev.tag) IN
                  Range(Ev.res) = S /\ Len(Ev.res) = Cardinality(S)
 
+\* a far out-of-range relative move in a NON-wrapping continuous world with arbitrary (non-dyadic) float extents and
+\* positions: the specification cannot represent the coordinates, but saturation must land EXACTLY on the edge
+TrMoveSat == /\ Ev.op = "move_sat" /\ Ev.out = "ok" /\ UNCHANGED vars
+             /\ \A ax \in 1..3 : Ev.res[ax] = CASE Ev.dirs[ax] = 1 -> "hi" [] Ev.dirs[ax] = -1 -> "lo" [] OTHER -> "same"
+
 TraceInit == /\ Init /\ tid \in 1..Len(Traces) /\ l = 1
 
 TraceNext == /\ l <= Len(Traces[tid]) /\ l' = l + 1 /\ UNCHANGED tid
              /\ (TrNewModel \/ TrNewAgent \/ TrJoin \/ TrLeave \/ TrAttach \/ TrDetach \/ TrRegister \/ TrLookup
-                 \/ TrMove \/ TrMoveTo \/ TrAgentsAt \/ TrGetAgents \/ TrPick \/ TrShuffle)
+                 \/ TrMove \/ TrMoveTo \/ TrMoveSat \/ TrAgentsAt \/ TrGetAgents \/ TrPick \/ TrShuffle)
              /\ ObsOK(Ev.obs, world', agents', env', pool', pos')
 
 TraceSpec == TraceInit /\ [][TraceNext]_tvars
